@@ -216,3 +216,10 @@ class _Ret:
 
 
 CONTRACTS += [_mk_gf("matrix"), _mk_gf("ragged")]
+
+
+# --- which characters a column accepts (the encoding errors this property reports) is the alphabet lookup table proved for C06; where a chunk is cut
+# (the line counts behind the reported line number) is the cut proved for C01
+from contracts import clone_for as _clone      # noqa: E402
+from contracts import c06 as _c06, c01 as _c01  # noqa: E402
+CONTRACTS += [_clone(_c06.init2, "C15"), _clone([c for c in _c01.CONTRACTS if c.name == "C01.DelimitedBuffer.from_raw_buffer"][0], "C15")]
